@@ -57,6 +57,27 @@ theorem fold_tight (cs : List Coord) (hv : ∀ c ∈ cs, Coord.Valid c) :
     rw [isEmpty_iff] at he
     omega
 
+/-- **PMTiles entries with run lengths** (`calc_bbox_pyramid`, reader.rs:135-150): the walk
+    `for entry … for i in 0..run_length` is the `include_coord` fold over *every* tile id addressed
+    by the entries, hence (by `bbox_of_fold`) the advertised level boxes are exactly the bounding
+    boxes of all tiles of all runs – not of the runs' end points (a Hilbert run leaves the box
+    spanned by its first and last tile; a run may also cross a zoom boundary). -/
+theorem runs_cover_exact (runs : List (Nat × Nat)) (g : Nat → Coord)
+    (hg : ∀ id ∈ expandRuns runs, id < U64 ∧ Hilbert.tileIdToCoordLoop id = .ok (g id))
+    (hv : ∀ id ∈ expandRuns runs, Coord.Valid (g id)) :
+    ∃ p, coverOfRuns runs = .ok p ∧ p.WF ∧
+      ∀ z b, p[z]? = some b → IsBoundingBox b ((expandRuns runs).map g) z := by
+  rw [coverOfRuns_eq_fold runs g hg]
+  apply bbox_of_fold
+  intro c hc
+  obtain ⟨id, hid, rfl⟩ := List.mem_map.1 hc
+  exact hv id hid
+
+/-- the end points are not enough: the run `(5, 4)` addresses the zoom-2 tiles (0,0), (1,0), (1,1),
+    (0,1); its first and last tile span only column 0, the walk must advertise columns 0..1 -/
+example : coverOfRuns [(5, 4)] = coverOfCoords [(0, 0, 2), (1, 0, 2), (1, 1, 2), (0, 1, 2)] := by decide
+example : coverOfRuns [(5, 4)] ≠ coverOfCoords [(0, 0, 2), (0, 1, 2)] := by decide
+
 /-! ## (b) MBTiles: the estimate-then-refine row range is exact for every tile set -/
 
 open VtModel.MBTiles in
